@@ -463,7 +463,11 @@ def evaluate(ctx: Ctx, cases, driver: Driver, stage_c=True, label=""):
             except Exception as e:      # the implementation's output has a shape the property's evaluation cannot even read
                 msg = f"the implementation's output cannot be evaluated against the property ({type(e).__name__}: {e})"
             if msg:
-                ctx.failures.append(Failure("D", cd, None, msg, got=canon(io)[:2000]))
+                # the model's answers for the same lines (None when the model was not asked on one of them): stage K compares them
+                # with `got` where the model reproduces the open findings
+                ml = [(m if i is not None else i) for i, m in zip(io, mo)]
+                mdl = None if any(m is None and i is not None for i, m in zip(io, mo)) else canon(ml)[:2000]
+                ctx.failures.append(Failure("D", cd, None, msg, got=canon(io)[:2000], model=mdl))
         key = hashlib.sha1(canon([c.kind, c.spec]).encode()).digest()
         nt = nontriv(cd, io) if nontriv else not all(x in ('"error"', "[]", "{}", '""', "null") for x in io)
         if nt and key not in seen:
